@@ -60,16 +60,18 @@ class Row:
 
 
 class _State:
-    __slots__ = ('env', 'heap', 'conds', 'effects', 'path', 'mutref', 'count')
+    __slots__ = ('env', 'heap', 'conds', 'effects', 'path', 'mutref', 'count', 'dirty')
 
     def __init__(self):
         self.env, self.heap, self.conds, self.effects, self.path, self.mutref = {}, {}, [], [], [], {}
         self.count = {}
+        self.dirty = []
 
     def fork(self):
         s = _State()
         s.env, s.heap, s.conds, s.effects, s.path, s.mutref = dict(self.env), dict(self.heap), list(self.conds), list(self.effects), list(self.path), dict(self.mutref)
         s.count = dict(self.count)
+        s.dirty = list(self.dirty)
         return s
 
 
@@ -242,7 +244,13 @@ class Sym:
         return t
 
     def read_place(self, st, p):
-        return self.project(st, self.read_local(st, p['l']), p['pr'])
+        t = self.project(st, self.read_local(st, p['l']), p['pr'])
+        if st.dirty and t[0] in ('f', 'idx', 'v', 'dc'):
+            s = tstr(t, 100000)
+            for pfx, blk in st.dirty:
+                if s == pfx or (s.startswith(pfx) and s[len(pfx)] in '.['):
+                    return ('upd', t, blk)
+        return t
 
     def operand(self, st, op, blk):
         if op['k'] in ('copy', 'move'):
@@ -254,9 +262,10 @@ class Sym:
         if k == 'use':
             return self.operand(st, r['a'], blk)
         if k in ('ref', 'rawptr'):
+            v = self.read_place(st, r['p'])
             if dest is not None and r.get('mut'):
-                st.mutref[dest] = r['p']['l']
-            return self.read_place(st, r['p'])
+                st.mutref[dest] = (r['p']['l'], v)
+            return v
         if k == 'bin':
             return fold(('op', r['op'], self.operand(st, r['a'], blk), self.operand(st, r['b'], blk)))
         if k == 'un':
@@ -418,10 +427,10 @@ class Sym:
         while d[0] == 'un' and d[1] == 'Not':
             d = d[2]
             neg = not neg
-        key = tstr(d, 100000)
+        key = repr(d)
         known = None
         for c, v in st.conds:
-            if tstr(c, 100000) == key:
+            if repr(c) == key:
                 known = v
         oth_live = self.b.blocks[oth]['term']['k'] != 'unreachable' or self.b.blocks[oth]['stmts']
         targets = []
@@ -537,8 +546,18 @@ class Sym:
         st.effects.append(('call', v))
         for a in t['args']:
             if a['k'] in ('copy', 'move') and not a['p']['pr'] and a['p']['l'] in st.mutref:
-                l = st.mutref[a['p']['l']]
-                st.env[l] = ('upd', self.read_local(st, l), blk)
+                l, pt = st.mutref[a['p']['l']]
+                while pt[0] == 'upd':
+                    pt = pt[1]
+                root = pt
+                while root[0] in ('f', 'idx', 'dc', 'upd'):
+                    root = root[1]
+                if root[0] == 'v' and pt[0] in ('f', 'idx', 'dc', 'v'):
+                    # the borrowed place lives in memory reachable from an input: later reads below it are new values
+                    st.dirty.append((tstr(pt, 100000), blk))
+                    st.heap = {k: x for k, x in st.heap.items() if not (k == tstr(pt, 100000) or k.startswith(tstr(pt, 100000)))}
+                else:
+                    st.env[l] = ('upd', self.read_local(st, l), blk)
         return done(v)
 
     def after(self, st, dest, v, target, blk):
@@ -558,10 +577,10 @@ class Sym:
             k(st, x[2] in ('Some', 'Ok'))
             return
         d = ('discr', x)
-        key = tstr(d, 100000)
+        key = repr(d)
         known = None
         for c, v in st.conds:
-            if tstr(c, 100000) == key:
+            if repr(c) == key:
                 known = v
         okv = 1 if kind == 'Option' else 0
         for ok in (True, False):
